@@ -46,7 +46,59 @@ type c08World struct {
 	reqs     []c08Req
 	runOf    map[int]int // thread id -> run number (set per controller)
 	viol     string
-	violSig  string // signature of the violation, matched against known-findings.txt
+	violSig  string              // signature of the violation, matched against known-findings.txt
+	log      func() []vhook.Call // the controller's operation log so far
+}
+
+// c08IncompleteRead reports whether some uploader read local/<week>.json between another
+// uploader's exclusive creation of that file and the write of its content.
+func (w *c08World) c08IncompleteRead(week string) bool {
+	if w.log == nil {
+		return false
+	}
+	path := filepath.Join(w.dir, "local", week+".json")
+	creating := map[int]bool{} // threads that have created the file and not yet written it
+	for _, c := range w.log() {
+		if c.Arg != path {
+			continue
+		}
+		switch {
+		case c.Op == "OpenFile" && c.Arg2 != "0x0" && c.Err == "":
+			creating[c.Thread] = true
+		case c.Op == "File.Write" || c.Op == "File.Close":
+			delete(creating, c.Thread)
+		case c.Op == "ReadFile" && c.Err == "":
+			for th := range creating {
+				if th != c.Thread {
+					return true
+				}
+			}
+		}
+	}
+	return false
+}
+
+// c08RecreatedAfterDiscard reports whether local/<week>.json was created again after an
+// uploader had removed it (which uploaders only do after a 4xx answer or when the week is
+// already recorded as uploaded).
+func (w *c08World) c08RecreatedAfterDiscard(week string) bool {
+	if w.log == nil {
+		return false
+	}
+	path := filepath.Join(w.dir, "local", week+".json")
+	removed := false
+	for _, c := range w.log() {
+		if c.Arg != path {
+			continue
+		}
+		if c.Op == "Remove" && c.Err == "" {
+			removed = true
+		}
+		if removed && c.Op == "OpenFile" && c.Arg2 != "0x0" && c.Err == "" {
+			return true
+		}
+	}
+	return false
 }
 
 func (w *c08World) post(thread int, url string, body []byte) (int, error) {
@@ -76,11 +128,11 @@ func (w *c08World) post(thread int, url string, body []byte) (int, error) {
 			if o.week == week && o.acked && o.hash != r.hash && w.viol == "" {
 				w.viol = fmt.Sprintf("the server acknowledged two different report bodies for week %s (%s by run %d, %s by run %d)", week, o.hash, o.run, r.hash, r.run)
 				switch {
-				case !o.valid || !r.valid:
+				case (!o.valid || !r.valid) && w.c08IncompleteRead(week):
 					// one of the bodies is not a complete report: it was read between the exclusive
 					// creation of the report file and the write of its content
 					w.violSig = "incomplete-report-read"
-				default:
+				case w.c08RecreatedAfterDiscard(week):
 					for _, x := range w.reqs {
 						if x.week == week && x.outcome == "400" {
 							// the report was discarded after a 4xx and re-created with another X by an
@@ -201,6 +253,7 @@ func TestVerifC08Deliver(t *testing.T) {
 		}
 		// ----- phase 1: concurrent uploaders -----
 		ctl := newCtl()
+		w.log = func() []vhook.Call { return ctl.Log }
 		for i := 0; i < nconc; i++ {
 			w.runOf[i] = i
 			u := vuUploader(dir, cfg, "v1.2.3", "http://upload.test/upload", start)
@@ -294,12 +347,9 @@ func TestVerifC08Deliver(t *testing.T) {
 						// known root causes: an uploader saw the week's uploadable report before it was complete
 						// (or before the local report existed), and a 4xx made it discard that report again
 						sig := ""
-						for _, q := range w.reqs {
-							if q.week == wk && !q.valid {
-								sig = "incomplete-report-read"
-							}
-						}
-						if sig == "" {
+						if w.c08IncompleteRead(wk) {
+							sig = "incomplete-report-read"
+						} else if w.c08RecreatedAfterDiscard(wk) {
 							for _, q := range w.reqs {
 								if q.week == wk && q.outcome == "400" {
 									sig = "recreated-after-4xx"
@@ -428,7 +478,7 @@ func TestVerifC08Deliver(t *testing.T) {
 							}
 						}
 						if invalidBody && acks == 0 {
-							if vstats.Known("incomplete-report-read") {
+							if w.c08IncompleteRead(wk) && vstats.Known("incomplete-report-read") {
 								vstats.Case("known-finding case", false, "known:incomplete-report-read")
 								return
 							}
@@ -627,6 +677,7 @@ func TestVerifC08Known(t *testing.T) {
 		ctl.KeepLog = true
 		ctl.PostFn = w.post
 		ctl.RandFn = newX()
+		w.log = func() []vhook.Call { return ctl.Log }
 		ua := vuUploader(dir, cfg, "v1.2.3", "http://upload.test/upload", start)
 		ub := vuUploader(dir, cfg, "v1.2.3", "http://upload.test/upload", start)
 		a := ctl.Go("A", func() { ua.Run() })
@@ -661,6 +712,7 @@ func TestVerifC08Known(t *testing.T) {
 		ctl.KeepLog = true
 		ctl.PostFn = w.post
 		ctl.RandFn = newX()
+		w.log = func() []vhook.Call { return ctl.Log }
 		us := []*uploader{}
 		for i := 0; i < 3; i++ {
 			us = append(us, vuUploader(dir, cfg, "v1.2.3", "http://upload.test/upload", start))
@@ -696,4 +748,203 @@ func TestVerifC08Known(t *testing.T) {
 			t.Fatalf("%s", w.viol)
 		}
 	}()
+}
+
+// ---------- kill-point enumeration ----------
+
+type c08Scn struct {
+	cfg      *telemetry.UploadConfig
+	start    time.Time
+	files    []*vmodel.CountFile
+	outcomes []string
+	strict   bool
+	nconc    int
+}
+
+func c08GenScn(t *rapid.T) *c08Scn {
+	s := &c08Scn{start: vgen.StartTime(t), strict: rapid.Bool().Draw(t, "strictServer"), nconc: rapid.IntRange(2, 3).Draw(t, "nconcurrent")}
+	s.cfg = &telemetry.UploadConfig{GOOS: []string{"linux"}, GOARCH: []string{"amd64"}, GoVersion: []string{"go1.22.1"}, SampleRate: 1,
+		Programs: []*telemetry.ProgramConfig{{Name: "cmd/go", Versions: []string{"go1.22.1"}, Counters: []telemetry.CounterConfig{{Name: "a/b", Rate: 1}}}}}
+	k := rapid.IntRange(1, 5).Draw(t, "firstWeekAge")
+	nf := 0
+	for i, n := 0, rapid.IntRange(1, 2).Draw(t, "nweeks"); i < n; i++ {
+		end := vgen.Midnight(s.start).AddDate(0, 0, -k)
+		k += rapid.IntRange(1, 7).Draw(t, "weekGap")
+		for j, m := 0, rapid.IntRange(1, 2).Draw(t, "filesInWeek"); j < m; j++ {
+			nf++
+			f := &vmodel.CountFile{Build: vmodel.Build{Program: "cmd/go", Version: "go1.22.1", GoVersion: "go1.22.1", GOOS: "linux", GOARCH: "amd64"},
+				Begin: end.AddDate(0, 0, -3), End: end, Kind: "ok", Counts: map[string]uint64{"a/b": uint64(nf)},
+				Base: fmt.Sprintf("go@go1.22.1-go1.22.1-linux-amd64-%s_%d.v1.count", end.Format("2006-01-02"), nf)}
+			f.Bytes = vgen.EncodeCountFile(f)
+			s.files = append(s.files, f)
+		}
+	}
+	for i, n := 0, rapid.IntRange(0, 6).Draw(t, "noutcomes"); i < n; i++ {
+		s.outcomes = append(s.outcomes, rapid.SampledFrom([]string{"200", "200", "500", "400", "neterr-before", "neterr-after"}).Draw(t, "outcome"))
+	}
+	return s
+}
+
+// c08RunScn executes the concurrent phase of a scenario. With replay == nil the
+// schedule is drawn (and returned); otherwise the recorded thread sequence is
+// followed, skipping threads that cannot run. killAt: thread -> own step number
+// after which it is stopped for good. It then performs one crash-free re-run
+// answered with 200 and returns a known-finding signature if the history
+// violated an invariant with a listed root cause.
+func c08RunScn(t *rapid.T, base string, s *c08Scn, replay []int, killAt map[int]int) (trace []int, steps []int, known string) {
+	dir := vuFreshDir(base)
+	defer os.RemoveAll(dir)
+	vuSetMode(dir, "on 2000-01-01")
+	os.MkdirAll(filepath.Join(dir, "upload"), 0777)
+	vuWriteFiles(dir, s.files)
+	w := &c08World{t: t, dir: dir, runOf: map[int]int{}, strict: s.strict, outcomes: append([]string(nil), s.outcomes...)}
+	x := 0.25
+	newCtl := func() *vhook.Controller {
+		ctl := vhook.New()
+		ctl.KeepLog = true
+		ctl.PostFn = w.post
+		ctl.RandFn = func(b []byte) {
+			x += 0.0625
+			if x >= 0.5 {
+				x = 0.03125
+			}
+			bits := math.Float64bits(0.5 + x)
+			for i := range b {
+				b[i] = 0
+			}
+			for i := 0; i < 8 && i < len(b); i++ {
+				b[i] = byte(bits >> (8 * i))
+			}
+		}
+		return ctl
+	}
+	ctl := newCtl()
+	w.log = func() []vhook.Call { return ctl.Log }
+	for i := 0; i < s.nconc; i++ {
+		w.runOf[i] = i
+		u := vuUploader(dir, s.cfg, "v1.2.3", "http://upload.test/upload", s.start)
+		ctl.Go(fmt.Sprintf("uploader%d", i), func() { u.Run() })
+	}
+	ctl.Install()
+	defer vhook.Uninstall()
+	steps = make([]int, s.nconc)
+	fail := func(format string, args ...any) bool {
+		if w.violSig != "" && vstats.Known(w.violSig) {
+			known = w.violSig
+			return true
+		}
+		t.Fatalf(format, args...)
+		return true
+	}
+	stepOne := func(th *vhook.Thread) bool {
+		ctl.Step(th)
+		steps[th.ID]++
+		trace = append(trace, th.ID)
+		if th.Panic != nil {
+			t.Fatalf("uploader %d panicked at %s: %v\n%s", th.ID, th.Site, th.Panic, th.Stack)
+		}
+		if w.viol != "" {
+			return fail("kill plan %v, step %d: %s", killAt, len(trace), w.viol)
+		}
+		if k, ok := killAt[th.ID]; ok && steps[th.ID] == k && !th.Done {
+			ctl.Kill(th)
+		}
+		return false
+	}
+	if replay == nil {
+		for ctl.Live() > 0 && known == "" {
+			run := ctl.Runnable()
+			if len(run) == 0 {
+				t.Fatalf("deadlock")
+			}
+			th := run[rapid.IntRange(0, len(run)-1).Draw(t, "thread")]
+			for b, burst := 0, rapid.SampledFrom([]int{1, 2, 3, 5, 8, 20}).Draw(t, "burst"); b < burst && !th.Done && !th.Killed; b++ {
+				if stepOne(th) {
+					break
+				}
+			}
+			if len(trace) > 50000 {
+				t.Fatalf("step budget exceeded")
+			}
+		}
+	} else {
+		i := 0
+		for ctl.Live() > 0 && known == "" {
+			var th *vhook.Thread
+			for ; i < len(replay); i++ {
+				c := ctl.Threads[replay[i]]
+				if !c.Done && !c.Killed {
+					th = c
+					i++
+					break
+				}
+			}
+			if th == nil { // recorded schedule exhausted: run the rest round-robin
+				th = ctl.Runnable()[0]
+			}
+			stepOne(th)
+			if len(trace) > 50000 {
+				t.Fatalf("step budget exceeded")
+			}
+		}
+	}
+	vhook.Uninstall()
+	if known != "" {
+		return
+	}
+	c08Attribution(t, ctl.Log, w, 0)
+	// one later crash-free run, every answer 200: still no second acknowledged body, no resend of a recorded week
+	w.outcomes = nil
+	before := len(w.reqs)
+	ctl2 := newCtl()
+	w.runOf = map[int]int{0: s.nconc}
+	u := vuUploader(dir, s.cfg, "v1.2.3", "http://upload.test/upload", s.start.Add(time.Minute))
+	th := ctl2.Go("rerun", func() { u.Run() })
+	ctl2.Install()
+	for i := 0; !th.Done; i++ {
+		ctl2.Step(th)
+		if i > 50000 {
+			t.Fatalf("re-run does not terminate")
+		}
+	}
+	vhook.Uninstall()
+	if th.Panic != nil {
+		t.Fatalf("re-run panicked: %v\n%s", th.Panic, th.Stack)
+	}
+	if w.viol != "" {
+		fail("kill plan %v, re-run: %s", killAt, w.viol)
+		return
+	}
+	c08Attribution(t, ctl2.Log, w, before)
+	return
+}
+
+// TestVerifC08KillEnum: for each generated scenario and schedule, EVERY single
+// kill point of EVERY uploader is tried in turn (the recorded schedule is
+// replayed with that uploader stopped after its k-th step).
+func TestVerifC08KillEnum(t *testing.T) {
+	defer vstats.Flush()
+	base := t.TempDir()
+	rapid.Check(t, func(t *rapid.T) {
+		s := c08GenScn(t)
+		trace, steps, known := c08RunScn(t, base, s, nil, nil)
+		desc := fmt.Sprintf("weeks/files=%d uploaders=%d outcomes=%v strict=%v steps=%v", len(s.files), s.nconc, s.outcomes, s.strict, steps)
+		if known != "" {
+			vstats.Case("known-finding case", false, "known:"+known)
+			return
+		}
+		runs, knownRuns := 0, 0
+		for u := 0; u < s.nconc; u++ {
+			for k := 1; k <= steps[u]; k++ {
+				_, _, kn := c08RunScn(t, base, s, trace, map[int]int{u: k})
+				runs++
+				if kn != "" {
+					knownRuns++
+				}
+				vstats.Case(fmt.Sprintf("%s | uploader %d killed after its step %d", desc, u, k), true, "kill-point")
+			}
+		}
+		vstats.Note("kill_points_enumerated", int64(runs))
+		vstats.Note("kill_points_ending_in_known_finding", int64(knownRuns))
+	})
 }
